@@ -281,9 +281,19 @@ def joinWith (sep : GoString) : List GoString → GoString
 def pct2C : GoString := [37, 50, 67]   -- "%2C"
 
 /-- `"\"" + json body + "\""` of a label: `json.Marshal(label)` without the quotes is
-delegated; the model takes it as a parameter of `URL.string`. -/
+delegated; the model takes it as a parameter of `URL.string` (the body as `json.Marshal`
+writes it: the rewrite of a leading `{` is `rewriteBrace`, part of the model). -/
 structure StringEnv where
   labelBody : GoString   -- json.Marshal(u.Params.FilterLabel)[1:len-1]
+
+/-- url.go, `URL.String`: `if label[0] == '{' { label = append([]byte("\\u007b"), label[1:]...) }`:
+a label body that starts with a curly bracket (which `NewSimpleURL` would take for a filter
+object) gets its first byte written as the JSON escape backslash-u-0-0-7-b. (`label[0]` is
+only evaluated for a non-empty label, whose JSON body is non-empty; on `[]` the model
+returns `[]`.) -/
+def rewriteBrace : GoString → GoString
+  | 123 :: t => [92, 117, 48, 48, 55, 98] ++ t
+  | b => b
 
 def PageVal.text : PageVal → GoString
   | .int n => printInt n
@@ -303,7 +313,9 @@ def URL.string (u : URL) (env : StringEnv) : GoString :=
   let filterParams :=
     match u.params.filter with
     | some f => [gs "filter=" ++ queryEscape f]
-    | none => if u.params.filterLabel ≠ [] then [gs "filter=" ++ queryEscape env.labelBody] else []
+    | none =>
+      if u.params.filterLabel ≠ [] then [gs "filter=" ++ queryEscape (rewriteBrace env.labelBody)]
+      else []
   let pageParams :=
     if u.isCol then (Typ.sortStrings u.params.page.keys).map (fun k =>
       gs "page%5B" ++ queryEscape k ++ gs "%5D=" ++ queryEscape (((u.params.page.get? k).map PageVal.text).getD []))
